@@ -449,6 +449,94 @@ func PromptClasses(levels map[string]*PlatLevel) [][]string {
 	return out
 }
 
+// C04Exemption evaluates the decidable hypotheses of C04's acquire theorem (Priv.isTree,
+// recognises, ambigLeaf, cmdsOK; lean/ScrapliModel/Priv.lean) on a level map with Go's regexp and
+// names the first one that fails, with the reason. tag == "" means the definition meets them all.
+// The Lean side re-evaluates the named check in the kernel (c04_exempt_justified), so a wrong
+// answer here breaks a proof instead of hiding a platform.
+func C04Exemption(levels map[string]*PlatLevel) (tag, reason string) {
+	keys := SortedLevelKeys(levels)
+	byName := map[string]*PlatLevel{}
+	roots := 0
+	for _, k := range keys {
+		l := levels[k]
+		if l.Name == "" || l.Name == "UNKNOWN" {
+			return "isTree", fmt.Sprintf("level %s has the name %q", k, l.Name)
+		}
+		if byName[l.Name] != nil {
+			return "isTree", "two levels are named " + l.Name
+		}
+		byName[l.Name] = l
+		if l.PreviousPriv == "" {
+			roots++
+		}
+	}
+	if roots != 1 {
+		return "isTree", fmt.Sprintf("%d levels have no previous-priv", roots)
+	}
+	for _, k := range keys {
+		l, n := levels[k], 0
+		for l != nil && l.PreviousPriv != "" && n <= len(keys) {
+			l = byName[l.PreviousPriv]
+			n++
+		}
+		if l == nil || n > len(keys) {
+			return "isTree", "level " + k + " does not reach the root along previous-priv links"
+		}
+	}
+	res := map[string]*regexp.Regexp{}
+	for _, k := range keys {
+		re, err := regexp.Compile(levels[k].Pattern)
+		if err != nil || levels[k].Witness == nil || !LevelMatches(levels[k], re, levels[k].Witness) {
+			return "recognises", "level " + k + " has no canonical prompt its own pattern accepts"
+		}
+		res[k] = re
+	}
+	for _, k := range keys {
+		m := levels[k]
+		amb := ""
+		for _, k2 := range keys {
+			if levels[k2].Name != m.Name && LevelMatches(levels[k2], res[k2], m.Witness) {
+				amb = k2
+			}
+		}
+		if amb == "" {
+			continue
+		}
+		nb := map[string]bool{}
+		if m.PreviousPriv != "" {
+			nb[m.PreviousPriv] = true
+		}
+		for _, k2 := range keys {
+			if levels[k2].PreviousPriv == m.Name {
+				nb[levels[k2].Name] = true
+			}
+		}
+		if len(nb) > 1 {
+			return "ambigLeaf", fmt.Sprintf("the prompt of level %s is also accepted by level %s, and %s is an interior node of the tree (%d neighbours)", k, amb, k, len(nb))
+		}
+	}
+	for _, k := range keys {
+		l := levels[k]
+		if l.PreviousPriv == "" {
+			continue
+		}
+		if l.Escalate == "" || l.Deescalate == "" {
+			return "cmdsOK", fmt.Sprintf("level %s is not the root and has an empty escalate or deescalate command (escalate %q, deescalate %q): it can only be a starting point", k, l.Escalate, l.Deescalate)
+		}
+		for _, k2 := range keys {
+			m := levels[k2]
+			if m.Name != l.Name && m.PreviousPriv == l.PreviousPriv && m.Escalate == l.Escalate {
+				return "cmdsOK", fmt.Sprintf("levels %s and %s share the parent and the escalate command %q", k, k2, l.Escalate)
+			}
+			if l.PreviousPriv == m.Name && m.PreviousPriv != "" && l.Escalate == m.Deescalate {
+				return "cmdsOK", fmt.Sprintf("the escalate command of %s equals the deescalate command of its parent %s", k, k2)
+			}
+		}
+	}
+	return "", ""
+}
+
 // ---- struct-tag agreement ----------------------------------------------------------------------
 
 // repoStructTags reads `yaml:"..."` tags of a struct type from the source.
@@ -753,7 +841,7 @@ func GenPlatforms() string {
 	var body strings.Builder
 	h := &reHoist{names: map[string]string{}}
 	files := EmbeddedPlatformFiles()
-	var fileTerms, classTab []string
+	var fileTerms, classTab, exemptTab []string
 	for _, f := range files {
 		if f == ExamplePlatformFile || !strings.HasSuffix(f, ".yaml") {
 			continue
@@ -768,6 +856,14 @@ func GenPlatforms() string {
 		}
 		renderSections(&body, h, LeanIdent(id), pd.Default)
 		classTab = append(classTab, fmt.Sprintf("(%s, \"\", %s)", leanStr(f), renderClasses(pd.Default)))
+		exempt := func(variant string, lv map[string]*PlatLevel) {
+			if tag, why := C04Exemption(lv); tag != "" {
+				exemptTab = append(exemptTab, fmt.Sprintf("(%s, %s, %s, %s)", leanStr(f), leanStr(variant), leanStr(tag), leanStr(why)))
+			}
+		}
+		if pd.Default != nil && pd.Default.DriverType == "network" {
+			exempt("", pd.Default.PrivilegeLevels)
+		}
 		var vs []string
 		var vks []string
 		for k := range pd.Variants {
@@ -779,6 +875,18 @@ func GenPlatforms() string {
 			renderSections(&body, h, vn, pd.Variants[k])
 			vs = append(vs, fmt.Sprintf("(%s, %s)", leanStr(k), vn))
 			classTab = append(classTab, fmt.Sprintf("(%s, %s, %s)", leanStr(f), leanStr(k), renderClasses(pd.Variants[k])))
+			if v := pd.Variants[k]; v != nil && pd.Default != nil {
+				lv, dt := pd.Default.PrivilegeLevels, pd.Default.DriverType
+				if len(v.PrivilegeLevels) > 0 { // what mergeVariant keeps
+					lv = v.PrivilegeLevels
+				}
+				if v.DriverType != "" {
+					dt = v.DriverType
+				}
+				if dt == "network" {
+					exempt(k, lv)
+				}
+			}
 		}
 		fmt.Fprintf(&body, "def %s : PlatformFile := { file := %s, parses := true, platformType := %s, hasDefault := %v, default := %s, variants := [%s] }\n\n",
 			LeanIdent("file_"+id), leanStr(f), leanStr(pd.PlatformType), pd.Default != nil, LeanIdent(id), strings.Join(vs, ", "))
@@ -804,6 +912,8 @@ func GenPlatforms() string {
 	b.WriteString("def files : List PlatformFile := [" + strings.Join(fileTerms, ", ") + "]\n")
 	b.WriteString("/-- prompt classes of each section's own privilege levels as Go's regexp sees them (file, variant or \"\", classes) -/\n")
 	b.WriteString("def goPromptClasses : List (String × String × List (List String)) := [\n  " + strings.Join(classTab, ",\n  ") + "]\n")
+	b.WriteString("/-- definitions (file, variant) that do not meet a decidable hypothesis of C04's acquire theorem: (failing check, reason).\n    `platform_acquire_reaches_target` leaves exactly these out; `c04_exempt_justified` re-evaluates the named check. -/\n")
+	b.WriteString("def c04Exempt : List (String × String × String × String) := [\n  " + strings.Join(exemptTab, ",\n  ") + "]\n")
 	b.WriteString("\nend Scrapli.Gen.Platforms\n")
 	return b.String()
 }
